@@ -15,11 +15,22 @@ NormF(f) ==
     [] OTHER -> f
 NormFs(fs) == [k \in DOMAIN fs |-> NormF(fs[k])]
 
+\* tree equality with semantic equality of string leaves
+RECURSIVE FieldEq(_, _), FieldsEq(_, _)
+FieldEq(a, b) ==
+  /\ a.id = b.id /\ a.t = b.t /\ a.kt = b.kt /\ a.vt = b.vt
+  /\ CASE a.t = 11 -> SegsEq(a.v.segs, b.v.segs)
+        [] a.t \in {14, 15} -> FieldsEq(a.v.elems, b.v.elems)
+        [] a.t = 13 -> FieldsEq(a.v.kv, b.v.kv)
+        [] a.t = 12 -> FieldsEq(a.v.fields, b.v.fields)
+        [] OTHER -> a.v = b.v
+FieldsEq(as, bs) == Len(as) = Len(bs) /\ \A k \in DOMAIN as : FieldEq(as[k], bs[k])
+
 ConvOK(ev) ==
   LET r == ToTree(MkIn(ev.in)) IN
   CASE Prop = "C03" -> ~ev.panic
     [] OTHER -> /\ ~ev.panic
-                /\ r.ok => (ev.ok /\ NormFs(ev.tree) = r.fs)
+                /\ r.ok => (ev.ok /\ FieldsEq(NormFs(ev.tree), r.fs))
                 /\ ~r.ok => ~ev.ok
 
 WriteOK(ev) ==
